@@ -274,7 +274,7 @@ func init() {
 					r.Inconc("carrier under-exercised: " + s.carrier)
 				}
 			}
-			for _, cr := range []string{drive.UrlRaw, drive.UrlEnc, drive.UrlEncFull} {
+			for _, cr := range []string{drive.UrlRaw, drive.UrlEnc, drive.UrlEncFull, drive.UrlEncName} {
 				if r.Counters["carrier|"+cr] < 200 {
 					r.Inconc("carrier under-exercised: " + cr)
 				}
@@ -634,6 +634,9 @@ func c01Random(res *core.Result, rng *rand.Rand, i int) {
 		}
 	case reflect.String:
 		carriers = append(carriers, drive.UrlRaw, drive.UrlEnc, drive.UrlEncFull, drive.MapT)
+		if i%3 == 0 {
+			carriers = append(carriers, drive.UrlEncName)
+		}
 		if i%4 == 0 {
 			carriers = append(carriers, drive.MapIface, drive.SliceMap, drive.StructTag)
 		}
